@@ -262,11 +262,15 @@ def gen_stream(rnd, limit, big=False):
         for j in range(nl):
             sz = rnd.choice([0, 1, 5, 30, limit - 1, limit, limit + 1, limit * 3] if rnd.random() < 0.35 else [0, 1, 2, 5, 17, 40])
             sync = rnd.random() < 0.5
-            body_kind = rnd.choice(["text", "cmdlike", "crlf", "brace"])
+            body_kind = rnd.choice(["text", "cmdlike", "crlf", "brace", "brace-end"])
             if body_kind == "text":
                 lit = b"x" * sz
             elif body_kind == "cmdlike":
                 lit = (b"L1 FAKE\r\nL2 NOOP\r\n" * (sz // 18 + 1))[:sz]
+            elif body_kind == "brace-end":
+                # the literal's last octets look like a literal declaration themselves
+                tail_ = rnd.choice([b" {3}", b"{2+}", b" {0}", b"x {10}"])
+                lit = (b"y" * max(0, sz - len(tail_)) + tail_)[-sz:] if sz else b""
             elif body_kind == "crlf":
                 lit = (b"\r\n" * (sz // 2 + 1))[:sz]
             else:
